@@ -68,6 +68,16 @@ def run(chk, tier, seed):
         sig, what = describe(rows[i])
         r = rows[i]
         chk.violation(sig, what + ": not what Resp.tla allows", r)
+    if prop == "C09":
+        # harness-only exploration: f32 bit patterns formatted and read back with the library's own parser
+        th = tier == "thorough"
+        out, _, _ = harness(["resp-f32-sweep", "--threads", 14, "--stride", 1 if th else 1021], profile="release" if th else "debug", timeout=3000)
+        sw = json.loads(out.strip().splitlines()[-1])
+        chk.cov["f32_sweep"] = {"patterns": sw["patterns"], "exhaustive": bool(th), "bad": sw["bad"],
+                                "what": "every f32 bit pattern (thorough) / every 1021st (quick): format, read back with the library's parser, compare bits; NaN/inf sentinels"}
+        for ex in sw["examples"]:
+            chk.violation({"engine": "f32-sweep"}, f"f32 bits {ex['bits']} formatted as {ex['text']!r} does not read back to the same value", ex)
+        chk.count(evaluations=sw["patterns"])
     chk.count(evaluations=len(rows), traces=len(rows))
     chk.cov["by_kind"] = {}
     for r in rows:
@@ -80,7 +90,7 @@ def run(chk, tier, seed):
                            "all strings of length <= 3 over {a \" , ;}, every ASCII byte, random strings; blocks of length 0..10000 around every digit-count boundary; character/expression data; Vec/ArrayVec lists of 1..5; every standard error with and without extended text and customs; every variant of 9 derived enums. "
                            "Each text is decoded by Resp.tla and must denote the value; `rep' = the library's own parser returns the value")
         chk.assumptions += ["float syntax is judged against NRf (488.2 'forgiving' numeric syntax), not the stricter NR2/NR3 response forms; NaN/inf must be exactly the SCPI sentinels",
-                            "the 2^32 sweep of all f32 bit patterns mentioned in DESIGN is not part of this check (random + structured patterns instead)"]
+                            "the sweep over f32 bit patterns (all 2^32 in thorough) is harness-only exploration through the library's own parser; TLC judges the structured + random rows"]
     else:
         chk.cov["rule"] = ("9 derived enums (unit and single-field variants, suffix siblings CHANnel1/2/10, OUTPut/OUTPut2, T1/T2/T10, nested short forms X/XY/XYZa): every prefix x case x 8 suffix spellings of every mnemonic, every single deletion/replacement/insertion, random candidates; "
                            "from_mnemonic and TryFrom<Token> must select exactly the variant Mnemonic!Matches designates (-224 for none, -104 for the six other element types); each variant reports its own mnemonic and its response text selects it again")
